@@ -968,6 +968,12 @@ def gen (kind, rng, scale):
                                                      for _ in range(5)))
     for last in range(32):
       yield dict(t="eth", raw=b"\x01\x80\xc2\x00\x00" + bytes([last]))
+    # raw values that look like text: colons, dashes, hex digits
+    for ch in (b":", b"-", b"a", b"0"):
+      for pos in range(6):
+        for other in (0, 1, 0x3a, 0x2d, 0xff):
+          yield dict(t="eth", raw=ch * pos + bytes([other]) + ch * (5 - pos))
+      yield dict(t="eth", raw=ch * 6)
     for raw in (b"\0" * 6, b"\xff" * 6, b"\x01\x02\x03\x04\x05\x06",
                 b"abcdef", b"a:b:c:", b"\x0a\x0b\x0c\x0d\x0e\x0f",
                 b"\x00\x00\x00\x00\x00\x01", b"\x10\x20\x30\x40\x50\x60"):
